@@ -1,5 +1,6 @@
 SPECIFICATION Spec
 CONSTANTS
+  MetaNs = {0}
   Budgets = {0, 2, 3}
   Pols = {"auto", "keep"}
   Objs <- ObjsOne
